@@ -30,7 +30,7 @@ func init() {
 			return append(bs, core.Batch{Cfg: "base", Name: "tagonly", Kind: "tagonly"}, core.Batch{Cfg: "legacy", Name: "tagonly-legacy", Kind: "tagonly"})
 		},
 		Gates: func(tier string) map[string]int64 {
-			return map[string]int64{"generations": 12, "families": 10, "contents": 150, "built_via_reflection": 900, "built_via_struct_fields": 900, "struct_fields_set": 20000, "cross_generation_decodes": 6000, "dynamic_twin_compares": 1500, "struct_reads": 20000, "descriptor_compares": 50, "tagonly_contents": 500, "tagonly_types": 4, "independent_descriptor_compares": 1, "independent_contents_with_two_oneofs_set": 100, "independent_decodes:wire": 120, "independent_decodes:json": 120, "independent_decodes:text": 120}
+			return map[string]int64{"generations": 12, "families": 10, "contents": 150, "built_via_reflection": 900, "built_via_struct_fields": 900, "struct_fields_set": 20000, "cross_generation_decodes": 6000, "dynamic_twin_compares": 1500, "struct_reads": 20000, "descriptor_compares": 50, "tagonly_contents": 500, "tagonly_types": 4, "independent_descriptor_compares": 1, "independent_contents_with_two_oneofs_set": 100, "independent_decodes:wire": 120, "independent_decodes:json": 120, "independent_decodes:text": 120, "independent_contents_missing_required": 50}
 		},
 		Run: runC46,
 	})
@@ -140,6 +140,11 @@ func c46DescLines(md protoreflect.MessageDescriptor) []string {
 			}
 			out = append(out, line)
 		}
+		rq := " required="
+		for i := 0; i < md.RequiredNumbers().Len(); i++ {
+			rq += fmt.Sprintf("%d,", md.RequiredNumbers().Get(i))
+		}
+		out = append(out, rq)
 		for i := 0; i < md.Oneofs().Len(); i++ {
 			o := md.Oneofs().Get(i)
 			line := fmt.Sprintf(" oneof[%d] %s index=%d synthetic=%v members=", i, o.Name(), o.Index(), o.IsSynthetic())
@@ -422,6 +427,7 @@ type TagOnly4 struct {
 	Second           isTagOnly4_Second `protobuf_oneof:"second"`
 	After            *uint32           `protobuf:"varint,9,opt,name=after"`
 	Third            isTagOnly4_Third  `protobuf_oneof:"third"`
+	Req              *int64            `protobuf:"varint,12,req,name=req"`
 	XXX_unrecognized []byte
 }
 
@@ -489,6 +495,7 @@ message_type { name: "TagOnly4"
   field { name: "after" number: 9 label: LABEL_OPTIONAL type: TYPE_UINT32 json_name: "after" }
   field { name: "c1" number: 10 label: LABEL_OPTIONAL type: TYPE_DOUBLE oneof_index: 2 json_name: "c1" }
   field { name: "c2" number: 11 label: LABEL_OPTIONAL type: TYPE_UINT32 oneof_index: 2 json_name: "c2" }
+  field { name: "req" number: 12 label: LABEL_REQUIRED type: TYPE_INT64 json_name: "req" }
   oneof_decl { name: "first" } oneof_decl { name: "second" } oneof_decl { name: "third" } }
 `
 
@@ -542,8 +549,27 @@ func c46Independent(c *core.Ctx, mt protoreflect.MessageType) {
 		if err != nil {
 			continue
 		}
+		if k%3 == 0 {
+			content.Clear(ind.Fields().ByName("req"))
+			ref, _ = detBytes(content)
+		}
 		c.Eval()
 		c.Count("independent_contents")
+		// required-field verdicts: the struct-tag-only message holding this content
+		// must be judged like the hand-written schema judges it
+		{
+			tm := mt.New()
+			if (proto.UnmarshalOptions{AllowPartial: true}).Unmarshal(ref, tm.Interface()) == nil {
+				wantErr := proto.CheckInitialized(content) != nil
+				if wantErr {
+					c.Count("independent_contents_missing_required")
+				}
+				_, merr := proto.Marshal(tm.Interface())
+				if gotErr := proto.CheckInitialized(tm.Interface()) != nil; gotErr != wantErr || (merr != nil) != wantErr {
+					c.Violation("tagonly:required-verdict-differs-from-handwritten-schema", map[string]any{"content": core.Hex(ref), "handwritten_reports_missing": wantErr, "checkinitialized_error": gotErr, "marshal_error": merr != nil})
+				}
+			}
+		}
 		nset := 0
 		for i := 0; i < ind.Oneofs().Len(); i++ {
 			if content.WhichOneof(ind.Oneofs().Get(i)) != nil {
